@@ -303,6 +303,10 @@ pub struct InterCase {
     pub ops: Vec<(u16, hashes::Piece)>,
     /// distribute the instances over this many owner threads (1 = single thread)
     pub owners: u8,
+    /// all instances are keyed with the same key and nonce bytes (state that is keyed by the wrong
+    /// things - a cache, a memo table - only shows when independent instances share their inputs)
+    #[serde(default)]
+    pub same_key: bool,
 }
 
 pub fn inter_strategy() -> BoxedStrategy<InterCase> {
@@ -311,11 +315,15 @@ pub fn inter_strategy() -> BoxedStrategy<InterCase> {
         al.push(format!("cipher:{}", i));
     }
     let n = al.len();
-    (prop::collection::vec(0..n, 2..=6), any::<u64>(), prop::collection::vec((any::<u16>(), hashes::piece()), 1..40), prop_oneof![3 => Just(1u8), 1 => 2u8..=4], prop::bool::weighted(0.4))
-        .prop_map(move |(ix, seed, ops, owners, same)| {
-            // 40 %: all instances of the same type (state shared between equal types would show)
-            let instances = ix.iter().map(|i| al[if same { ix[0] } else { *i }].clone()).collect();
-            InterCase { instances, seed, ops, owners }
+    let ciphers: Vec<String> = (0..7).map(|i| format!("cipher:{}", i)).collect();
+    (prop::collection::vec(0..n, 2..=6), any::<u64>(), prop::collection::vec((any::<u16>(), hashes::piece()), 1..40), prop_oneof![3 => Just(1u8), 1 => 2u8..=4], 0u8..10, prop::bool::weighted(0.4))
+        .prop_map(move |(ix, seed, ops, owners, sel, same_key)| {
+            // 40 %: all instances of the same type (state shared between equal types would show);
+            // 20 %: ciphers only (with `same_key`: several cipher types on one key and nonce)
+            let instances = ix.iter().map(|i| {
+                if sel < 4 { al[ix[0]].clone() } else if sel < 6 { ciphers[*i % 7].clone() } else { al[*i].clone() }
+            }).collect();
+            InterCase { instances, seed, ops, owners, same_key }
         })
         .boxed()
 }
@@ -359,7 +367,7 @@ pub fn inter_check(c: &InterCase, info: &mut CaseInfo) -> Result<(), Fail> {
     }
     // expected per instance: one-at-a-time result over the concatenation (hash: one-shot digest +
     // reference for short inputs; cipher: reference keystream)
-    let keys: Vec<Vec<u8>> = (0..n).map(|i| gen::expand(c.seed ^ (i as u64 + 1), 64, 0)).collect();
+    let keys: Vec<Vec<u8>> = (0..n).map(|i| gen::expand(c.seed ^ (if c.same_key { 1 } else { i as u64 + 1 }), 64, 0)).collect();
     let mut model: Vec<Vec<u8>> = vec![Vec::new(); n];
     for (k, d) in &sched {
         model[*k].extend_from_slice(d);
@@ -439,6 +447,7 @@ pub fn inter_check(c: &InterCase, info: &mut CaseInfo) -> Result<(), Fail> {
     info.label_if(kinds.len() == 1, "all instances of the same type");
     info.label_if(kinds.len() > 1, "instances of different types");
     info.label_if(owners > 1, "instances distributed over owner threads");
+    info.label_if(c.same_key && c.instances.iter().filter(|a| a.starts_with("cipher:")).count() >= 2, "several cipher instances share key and nonce bytes");
     let touched = model.iter().filter(|m| !m.is_empty()).count();
     info.nontrivial = touched >= 2;
     info.label_if(touched >= 2, ">=2 instances interleaved");
